@@ -146,8 +146,8 @@ class Dataset(Node):
     def __getitem__(self, k):
         self._check()
         r = self.data[k]
-        if isinstance(r, np.ndarray):
-            r = r.copy()
+        if isinstance(r, (np.ndarray, SArr)):
+            r = r.copy()           # h5py reads into a new array
         return r
 
     def __setitem__(self, k, v):
